@@ -270,8 +270,10 @@ class Gen:
         scen = which or r.choice(["single", "single", "multi", "announce", "concurrent", "message", "ephemeral",
                                   "locks", "dup", "fees", "aggsig", "unknown", "malformed", "ff", "limits"])
         spends = getattr(self, "sc_" + scen)()
+        std = True
         if isinstance(spends, tuple):
             tree, spends = spends
+            std = False
         else:
             tree = self.bundle_tree(spends)
         flags = 0
@@ -285,7 +287,8 @@ class Gen:
             keys += s["keys"]
             tags += s["tags"]
         return {"tree": tree, "flags": flags, "visitor": r.below(2), "max_cost": 11000000000 if not r.chance(1, 12) else r.choice([0, 199, 200, 450000, 1349999, 1800000, 3000000]),
-                "clvm_cost": r.choice([0, 0, 12345]), "tags": tags, "scenario": scen, "keys": keys}
+                "clvm_cost": r.choice([0, 0, 12345]), "tags": tags, "scenario": scen, "keys": keys,
+                "spends": spends, "std": std}
 
     def sc_single(self):
         s = self.new_spend()
@@ -530,6 +533,19 @@ class Gen:
         s["conds"] = [c] * n
         s["tags"].append((name, "x%d" % n))
         return [s]
+
+    def sc_many(self, n=None):
+        """many spends with amounts near 2^64 (sums exceed 64 bits)"""
+        r = self.r
+        n = n or r.choice([200, 300])
+        spends = []
+        for i in range(n):
+            s = self.new_spend(parent=r.bytes(32), amount=(1 << 64) - 1 - r.below(1000))
+            s["budget"] = []
+            if r.chance(1, 2):
+                self.add_raw(s, "CREATE_COIN", [r.choice(self.phs), canon(s["amount"] - r.below(2))])
+            spends.append(s)
+        return spends
 
     def sc_malformed(self):
         r = self.r
